@@ -981,13 +981,16 @@ impl Transaction {
             return false;
         }
 
+        //
+        // no value-carrying input may be listed twice (zero-amount inputs are
+        // placeholders and are not looked up in the utxoset)
+        //
+        let mut spent_keys: AHashSet<SaitoUTXOSetKey> = Default::default();
         if self
             .from
             .iter()
-            .map(|slip| slip.utxoset_key)
-            .collect::<Vec<_>>()
-            .len()
-            != self.from.len()
+            .filter(|slip| slip.amount > 0)
+            .any(|slip| !spent_keys.insert(slip.utxoset_key))
         {
             error!("ERROR: transaction : {} has duplicate inputs", self);
             return false;
